@@ -13,6 +13,7 @@ func init() {
 	vHarnesses["VerifC14Diff"] = VerifC14Diff
 	vHarnesses["VerifC14Patch"] = VerifC14Patch
 	vHarnesses["VerifC14Errors"] = VerifC14Errors
+	vHarnesses["VerifC14ErrMatrix"] = VerifC14ErrMatrix
 	vHarnesses["VerifC14Canary"] = VerifC14Canary
 	vHarnesses["VerifC14Translate"] = VerifC14Translate
 	vHarnesses["VerifC14SetKeys"] = VerifC14SetKeys
@@ -444,6 +445,70 @@ func VerifC14Errors() {
 	vAssert(vCLIStdout() == "", "erroneous invocation printed on stdout")
 	vAssert(vCLIStderrLines() == 1, "error message is not exactly one line")
 	vCover("c14.errors")
+	vCLIReset()
+}
+
+// VerifC14ErrMatrix: every way an input can be unusable (undecodable, missing, undecodable on
+// stdin, the same undecodable file named twice, two byte-identical undecodable files) x diff
+// and patch mode x output format x JSON / YAML (x -v2=false with V1=1): exit status 2, nothing on
+// stdout, exactly one line on stderr.
+func VerifC14ErrMatrix() {
+	a := vDoc()
+	yaml := vChoice(2) == 1
+	good, bad := a.Json(), "{"
+	if yaml {
+		good, bad = a.Yaml(), "a: ["
+	}
+	vCLISetFile("good", good)
+	vCLISetFile("bad", bad)
+	vCLISetFile("bad2", bad)
+	vCLISetFile("empty", "")
+	vCLISetFile("baddiff", "@ [")
+	var argv []string
+	if vParam("V1", 0) == 1 && vChoice(2) == 1 {
+		argv = append(argv, "-v2=false")
+	}
+	if yaml {
+		argv = append(argv, "-yaml")
+	}
+	format := [...]string{"", "patch", "merge"}[vChoice(3)]
+	if format != "" {
+		argv = append(argv, "-f", format)
+	}
+	switch vChoice(10) {
+	case 0:
+		argv = append(argv, "bad", "good")
+	case 1:
+		argv = append(argv, "good", "bad")
+	case 2:
+		argv = append(argv, "bad", "bad")
+	case 3:
+		argv = append(argv, "bad", "bad2")
+	case 4:
+		vCLISetStdin(bad)
+		argv = append(argv, "bad")
+	case 5:
+		vCLISetStdin(bad)
+		argv = append(argv, "good")
+	case 6:
+		argv = append(argv, "missing", "good")
+	case 7:
+		argv = append(argv, "missing", "missing")
+	case 8:
+		// patch mode: a valid (empty) diff against an undecodable document
+		if format != "" {
+			vAssume(false)
+		}
+		argv = append(argv, "-p", "empty", "bad")
+	default:
+		// patch mode: an undecodable diff against a good document
+		argv = append(argv, "-p", "baddiff", "good")
+	}
+	code := vCLIRun(argv)
+	vAssert(code == 2, "unusable input does not end in exit status 2")
+	vAssert(vCLIStdout() == "", "unusable input: something was printed on stdout")
+	vAssert(vCLIStderrLines() == 1, "unusable input: the error message is not exactly one line")
+	vCover("c14.errmatrix")
 	vCLIReset()
 }
 
